@@ -289,9 +289,19 @@ def o_block(case):
         packed = net.message.pack("block", block=b)
         if packed != raw:
             _bad("block:message-pack", "message.pack('block') differs from the block bytes")
+        # other coins' networks live in the same process and may have parsed this message type before this one did
+        for other in NETS.values():
+            if other is not net:
+                try:
+                    other.message.parse("block", raw)
+                except Exception:       # noqa - what another coin makes of these bytes is not under test
+                    pass
         b3 = net.message.parse("block", raw)["block"]
         if b3.as_bin() != raw:
             _bad("block:message-parse", "message.parse('block') does not round trip")
+        if type(b3) is not Block or any(type(t) is not Block.Tx for t in b3.txs):
+            _bad("block:message-parse:class-of-another-coin", "%s.message.parse('block') returned a %s holding %s objects, this network's classes "
+                 "are %s / %s" % (case["net"], type(b3).__name__, sorted({type(t).__name__ for t in b3.txs}), Block.__name__, Block.Tx.__name__))
         # the same block read from a stream that only goes forward (a socket file, a pipe), two blocks back to back
         fwd = _ForwardOnly(raw + raw)
         for k in range(2):
@@ -488,6 +498,9 @@ def o_merkleblock(case):
             [txids.index(h) if h in txids else h.hex()[:8] for h in d["tx_hashes"]][:40], len(want)))
     if d["header"].as_bin() != hdr or d["total_transactions"] != n or list(d["hashes"]) != hashes or bytes(d["flags"]) != flags:
         _bad("merkleblock:parsed-fields", "parsed header/count/hashes/flags differ from what was sent (n=%d)" % n)
+    if type(d["header"]) is not net.block:
+        _bad("block:message-parse:class-of-another-coin", "%s.message.parse('merkleblock') header is a %s, this network's class is %s" % (
+            case["net"], type(d["header"]).__name__, net.block.__name__))
     if repeated:
         return ["repeated-ids-matched", "n=%s" % ("<=8" if n <= 8 else ">8")]
     # ---- corruptions: every one must be refused
